@@ -67,8 +67,20 @@ uint64_t fnv64(const void *p, size_t n, uint64_t h) {
     return h;
 }
 
+// Fills the stack region that the next library call's frames will occupy with a byte pattern, so
+// that a read of an uninitialised local sees 0x41.. (a wild pointer, a huge count, a "true") and
+// not whatever the previous call happened to leave there - in practice a tidy NULL/0 - and the
+// dependence becomes a visible failure.  Most effective in the -O0 build flavour ("asan0"),
+// where every local lives in its stack slot.
+__attribute__((noinline)) void dirty_stack() {
+    volatile char junk[48 * 1024];
+    memset((void *)junk, 0x41, sizeof junk);
+    __asm__ volatile("" ::: "memory");
+}
+
 void Ctx::op(const char *fmt, ...) {
     opno++;
+    dirty_stack();
     if (!verbose && trace.size() > 6000) return;
     char buf[512];
     va_list ap; va_start(ap, fmt); vsnprintf(buf, sizeof buf, fmt, ap); va_end(ap);
